@@ -1194,12 +1194,10 @@ impl Interpreter {
                             );
 
                             let error_msg = JsValue::String(JsString::from(error.to_string()));
-                            if vm.inject_exception(self, error_msg.clone()) {
-                                self.active_vm = Some(Box::new(vm));
-                            } else {
-                                let guarded = Guarded::from_value(error_msg, &self.heap);
-                                return Err(JsError::thrown(guarded));
-                            }
+                            // Like a throw at the await: the resumed frame's handlers, then
+                            // its callers' (an async frame rejects its promise)
+                            vm.throw_on_resume(self, error_msg)?;
+                            self.active_vm = Some(Box::new(vm));
                         }
                     }
                 } else {
@@ -1250,12 +1248,8 @@ impl Interpreter {
                                     vm_guard,
                                     &self.heap,
                                 );
-                                if vm.inject_exception(self, result_value.clone()) {
-                                    self.active_vm = Some(Box::new(vm));
-                                } else {
-                                    let guarded = Guarded::from_value(result_value, &self.heap);
-                                    return Err(JsError::thrown(guarded));
-                                }
+                                vm.throw_on_resume(self, result_value)?;
+                                self.active_vm = Some(Box::new(vm));
                             }
                             PromiseStatus::Pending => {
                                 // Re-add to wait graph (should not happen for ready contexts)
